@@ -20,7 +20,8 @@ RULE = ("hostile archives from the reference writer: entries (name x kind) with 
         "absolute outside, /, a/../x (through a name a later entry turns into a link) ...}; ALL archives of 1 and 2 entries over the full alphabet, all 3-entry archives over a reduced "
         "alphabet and over the respelled alphabet (names a, ./a, b, ./b: a later entry under another spelling replaces the earlier one on disk), random 4-5 entry "
         "archives; destination absolute / relative / None(cwd), empty or pre-populated; opened by path or stream; single folder or one folder per "
-        "entry. Oracle: (1) snapshot (type, mode, size, mtime, link text, SHA-256) of the scratch area outside the destination is unchanged; "
+        "entry (1-entry archives: every destination form x pre-populated or not; larger families: configurations rotate over batches of 250 in the quick tier, "
+        "2-entry and respelled families run under every destination form in the thorough tier). Oracle: (1) snapshot (type, mode, size, mtime, link text, SHA-256) of the scratch area outside the destination is unchanged; "
         "(2) no audit event of a mutating call (open-for-write, mkdir, symlink, link, rename, remove, rmdir, chmod, chown, utime, truncate, shutil.*) "
         "resolves outside realpath(destination). Raising is always allowed. Cell = shape signature of the archive (kinds + name/target classes) + destination mode.")
 EXHAUSTIVE = {"quick": "all archives of <= 2 entries over the full shape alphabet (24 names x (file, dir, 13 link targets)); all 3-entry archives over the reduced alphabet and over the respelled alphabet (4 names x (file, dir, 8 link targets)); all 4-entry link chains (3 links over {a,b,a/b} x {., .., a/.., b/..} + one entry created through them)",
@@ -58,13 +59,20 @@ def cases(rng, tier):
     batch = 250
     modes = ["abs", "rel", "cwd"]
 
-    def add(arcs, label, prepop=None):
+    def add(arcs, label, prepop=None, product=False):
+        """product=False: every batch of 250 archives runs under one configuration (destination form, pre-populated or not,
+        opened by path or stream, one folder or one per entry), configurations rotating over the batches.
+        product=True: every batch runs under every destination form x pre-populated or not (open/perfile still rotate)."""
         for i in range(0, len(arcs), batch):
-            out.append({"archives": arcs[i : i + batch], "dest": modes[(i // batch) % 3], "prepop": bool((i // batch) & 1) if prepop is None else prepop,
-                        "open": "path" if (i // batch) % 4 == 0 else "stream", "perfile": bool((i // batch) % 5 == 0), "label": label})
+            b = i // batch
+            combos = [(modes[b % 3], bool(b & 1) if prepop is None else prepop)]
+            if product:
+                combos = [(m, pp) for m in modes for pp in ((False, True) if prepop is None else (prepop,))]
+            for k, (m, pp) in enumerate(combos):
+                out.append({"archives": arcs[i : i + batch], "dest": m, "prepop": pp, "open": "path" if (b + k) % 4 == 0 else "stream", "perfile": bool((b + k) % 5 == 0), "label": label})
 
-    add([[s] for s in full], "1-entry")
-    add([[a, b] for a in full for b in full], "2-entry")
+    add([[s] for s in full], "1-entry", product=True)
+    add([[a, b] for a in full for b in full], "2-entry", product=(tier == "thorough"))
     red = shapes(NAMES_R, TARGETS_R)
     add([list(t) for t in itertools.product(red, repeat=3)], "3-entry-reduced")
     # link chains: three link entries followed by an entry created through them (a dangling link may be
@@ -74,7 +82,7 @@ def cases(rng, tier):
     add([[x, y, z, w] for x in lk for y in lk for z in lk for w in last], "4-entry-link-chains")
     sp = shapes(NAMES_S, TARGETS_S)
     # never pre-populated: the pre-populated destination holds 'a' (directory) and 'b' (file), which are this family's own names
-    add([list(t) for t in itertools.product(sp, repeat=3)], "3-entry-respelled", prepop=False)
+    add([list(t) for t in itertools.product(sp, repeat=3)], "3-entry-respelled", prepop=False, product=(tier == "thorough"))
     if tier == "thorough":
         med = shapes(NAMES_M, TARGETS_M)
         add([list(t) for t in itertools.product(med, repeat=3)], "3-entry-medium")
